@@ -1233,9 +1233,15 @@ class _iterinfo(object):
                     for wday, n in rr._bynweekday:
                         if n < 0:
                             i = last+(n+1)*7
-                            i -= (self.wdaymask[i]-wday) % 7
                         else:
                             i = first+(n-1)*7
+                        if not (first <= i <= last):
+                            # The nth week lies outside the period, and
+                            # so does the weekday looked up from it.
+                            continue
+                        if n < 0:
+                            i -= (self.wdaymask[i]-wday) % 7
+                        else:
                             i += (7-self.wdaymask[i]+wday) % 7
                         if first <= i <= last:
                             self.nwdaymask[i] = 1
